@@ -153,35 +153,63 @@ def _may_write(c):
 # ------------------------------------------------------------------ call ordering
 
 
-def call_sequence_min_progress(fn, pats):
-    """Forward must-analysis: minimum, over all entry->return paths, of how many of the regex
-    patterns `pats` have been matched *in order* by the calls executed.  Returns (min, per_ret)."""
+def call_sequence_min_progress(fn, pats, start=0, stops=None, argpred=None):
+    """Forward must-analysis: minimum, over all paths from `start` to a normal return (or to one
+    of the `stops` blocks, e.g. a loop head), of how many of the regex patterns `pats` have been
+    matched *in order* by the calls executed.  argpred(i, call) may further restrict a match.
+    Returns (min, per_end_block)."""
     rxs = [re.compile(p) for p in pats]
     succ, pred_, reach = fn.cfg()
     n = len(rxs)
     INF = n + 1
+    stops = set(stops or ())
     IN = {b: INF for b in reach}
-    IN[0] = 0
-    work = [0]
+    IN[start] = 0
+    work = [start]
     OUT = {}
+    ends = {}
+    first = True
     while work:
         b = work.pop()
+        if b in stops and not (first and b == start):
+            ends[b] = min(ends.get(b, INF), IN[b])
+            continue
+        first = False
         st = IN[b]
         t = fn.term(b)
         if t[0] == "call" and st < n:
             c = mir.Call(fn, b, t)
             nm = c.name()
-            if rxs[st].search(nm) or (c.callee and rxs[st].search(c.callee)):
+            if (rxs[st].search(nm) or (c.callee and rxs[st].search(c.callee))) and (argpred is None or argpred(st, c)):
                 st += 1
         if OUT.get(b) == st:
             continue
         OUT[b] = st
-        for s in succ[b]:
-            if st < IN[s] or s not in OUT:
-                IN[s] = min(IN[s], st)
-                work.append(s)
-    rets = {b: OUT.get(b, INF) for b in fn.ret_blocks()}
-    return (min(rets.values()) if rets else INF), rets
+        if t[0] == "ret":
+            ends[b] = min(ends.get(b, INF), st)
+        for s2 in succ[b]:
+            if st < IN[s2] or s2 not in OUT:
+                IN[s2] = min(IN[s2], st)
+                work.append(s2)
+    return (min(ends.values()) if ends else INF), ends
+
+
+def calls_between(fn, start, stops):
+    """Calls reachable from block `start` without passing through any of `stops`."""
+    succ = fn.cfg()[0]
+    seen = set()
+    st = [start]
+    out = []
+    while st:
+        b = st.pop()
+        if b in seen or b in stops:
+            continue
+        seen.add(b)
+        t = fn.term(b)
+        if t[0] == "call":
+            out.append(mir.Call(fn, b, t))
+        st.extend(succ[b])
+    return out
 
 
 def calls_matching(fn, pat):
